@@ -255,6 +255,13 @@ class C05(MergeFamProp):
             docs = [{'raw': older}, {'raw': newer}]
             if rng.random() < 0.3:
                 docs.append({'raw': M([(r, deep(1))])})
+            if rng.random() < 0.35:
+                # the deleting mapping IS the document root: the unwrapped run prunes at the empty path, the wrapped one below keys
+                # (seeded change S6-C05: a path object shared between the pruning walk and its caller, only when the path is non-empty)
+                docs = [{'raw': d['raw']['m'][0][1]} for d in docs]
+                docs = [d for d in docs if 'm' in d['raw']]
+                if len(docs) < 2 or 'm' not in docs[0]['raw']:
+                    docs = [{'raw': older}, {'raw': newer}]
             gen[(len(gen) - 1 - i) % len(gen)] = {'docs': docs, 'style': ['flow', 0, 0]}
         # targeted family: a deleting mapping whose !notnew children re-create (part of) what its pruning removes, next to
         # entries of the older mapping that may be protected; the added sibling goes into the mapping the deleting one meets
